@@ -156,13 +156,14 @@ PROPS["C12"] = {
     "technique": 'Lean 4 proof of the closed form and of trip-count soundness against reference loop semantics + natively executed instrumented twin loops',
     "also": ["C01"],   # the shared canon correspondence suite tags its violations C01
     "suites": [{"name": "loops", "quick": 400, "thorough": 4000, "timeout": 3000}, {"name": "canon", "timeout": 3000}],
-    "lean_modules": ["SfwModel.Props.C12", "SfwModel.Props.C12IV", "SfwModel.Props.C12Wrap"],
+    "lean_modules": ["SfwModel.Props.C12", "SfwModel.Props.C12IV", "SfwModel.Props.C12Wrap", "SfwModel.Props.C12Dom"],
     "required_theorems": ["C12_closed_form", "C12_closed_form_mod_width", "C12_negate_sound", "C12_flags_sound_left",
                           "C12_flags_sound_right", "C12_terminates", "C12_trip_count_sound", "C12_runs_unique",
                           "C12_bodyCount_runs", "C12_formula_needs_step_sign", "C12_inclusive_equal_bounds_fixed",
                           "C12_iv_edges", "C12_iv_basic_guard", "C12_iv_two_updates_rejected", "C12_iv_reverse_subtraction_rejected",
-                          "C12_trip_count_sound_on_the_counters_type", "C12_narrow_counter_wrap_fixed"],
-    "level_text": "Kernel-checked: a header phi is summarised as an induction variable ONLY IF every edge from inside the loop carries the one integer update `phi ± step` and every outside edge the one start value (guard of classifyIV; two different updates on two back edges are rejected); a variable updated by `i += step` on every trip holds start + k*step at the k-th header evaluation, and that value modulo 2^w on w-bit integers; the model of deriveTripCount's decision chain (operator negation by exit polarity, flags, IV on either side, dead/divergent pre-checks, step-sign requirement, the six closed forms with truncated division and max(0,.)) is sound: whenever the stored trip count evaluates to a number at given argument values the loop `for i := start; i cmp limit; i += step` executes its body exactly that many times (for `!=` under termination); the same on the counter's own 8/16/32/64-bit type with wrap-around, for every count that survives the tripCountMayWrap gate. The proof attempt exposed a real defect (inclusive test with equal constant bounds), now fixed and kept as a regression theorem; the narrow-counter wrap (uint8 1..<255 step 5: annotated 51, runs 102) is kept as C12_narrow_counter_wrap_fixed. Tie: the model's loop analysis and rendered TripCount / closed forms are compared byte for byte with the real canonical IR on the corpus including 40+ generated counted loops of every form and counter type (int, uint8, int8, uint16, int32; exit test on every iteration or skipped on some); independently the REAL exported SCEV trees are evaluated at 12 argument vectors and compared with header values and body counts recorded by a natively executed instrumented twin of each loop.",
+                          "C12_trip_count_sound_on_the_counters_type", "C12_narrow_counter_wrap_fixed",
+                          "C12_dominates_iff", "C12_exit_test_on_every_iteration"],
+    "level_text": "Kernel-checked: a header phi is summarised as an induction variable ONLY IF every edge from inside the loop carries the one integer update `phi ± step` and every outside edge the one start value (guard of classifyIV; two different updates on two back edges are rejected); a variable updated by `i += step` on every trip holds start + k*step at the k-th header evaluation, and that value modulo 2^w on w-bit integers; the model of deriveTripCount's decision chain (operator negation by exit polarity, flags, IV on either side, dead/divergent pre-checks, step-sign requirement, the six closed forms with truncated division and max(0,.)) is sound: whenever the stored trip count evaluates to a number at given argument values the loop `for i := start; i cmp limit; i += step` executes its body exactly that many times (for `!=` under termination); the same on the counter's own 8/16/32/64-bit type with wrap-around, for every count that survives the tripCountMayWrap gate. The proof attempt exposed a real defect (inclusive test with equal constant bounds), now fixed and kept as a regression theorem; the narrow-counter wrap (uint8 1..<255 step 5: annotated 51, runs 102) is kept as C12_narrow_counter_wrap_fixed. The model's dominance test (a fuel-bounded worklist search) is proved to BE dominance (C12_dominates_iff: a lies on every path from a root to b), and the condition deriveTripCount now imposes - the exiting block dominates every back edge - is proved to mean that every walk from the header to a latch, one iteration, passes the exit test (C12_exit_test_on_every_iteration). Tie: the model's loop analysis and rendered TripCount / closed forms are compared byte for byte with the real canonical IR on the corpus including 40+ generated counted loops of every form and counter type (int, uint8, int8, uint16, int32; exit test on every iteration or skipped on some); independently the REAL exported SCEV trees are evaluated at 12 argument vectors and compared with header values and body counts recorded by a natively executed instrumented twin of each loop.",
     "level_note": "PARTIAL: the link from Go SSA to the abstract counted loop (that the header phi really is updated by `+ step` on every back edge, that the exit test is the only exit) is go/ssa semantics and is validated by native execution, not proved. Trusted: Lean kernel; SCEV.eval as the reading of a SCEV tree (harness evalSCEV is its Go twin); wrap-around: the closed-form theorem is modulo 2^w; the trip-count theorem exists on unbounded Int (C12_trip_count_sound) and on the counter's own type (C12_trip_count_sound_on_the_counters_type: every count that survives tripCountMayWrap is the number of body executions with wrap-around arithmetic; for 64-bit counters with a non-constant bound under the premise that the loop ends before the counter reaches the end of its range).",
     "partial": "SSA-to-counted-loop abstraction validated by native execution, not proved; trip counts of 64-bit counters with non-constant bounds proved under a no-wrap premise",
     "trusted_base": ["go/ssa construction and the Go compiler (native twin)", "SCEV.eval / harness evalSCEV as the meaning of a trip-count expression"],
